@@ -81,14 +81,15 @@ var alphabet = []batch{
 	mkBatch("a-"),             // 4 delete one (collapses a branch into an extension)
 	mkBatch("a2"),             // 5 overwrite / create with another value
 	mkBatch("e1"),             // 6 key extending another key
-	mkBatch("c1"),             // 7 re-create / shared extension+leaf
+	mkBatch("c1 e-"),          // 7 re-create / shared extension+leaf; delete the extending key alone (branch left with its value child only; delete of a key running past a leaf)
 	mkBatch("b- c2"),          // 8 delete and put in one block
 	mkBatch("a1 b1 c1 d1"),    // 9 everything at once
 	mkBatch("d- e-"),          // 10
 	mkBatch("a1"),             // 11 put of an unchanged value / re-create
 }
 
-var findPrefixes = [][]byte{{}, {0x11}, {0x21}}
+var findPrefixes = [][]byte{{}, {0x11}}
+var seekPrefixes = [][]byte{{}, {0x21}}
 
 // ---- configurations --------------------------------------------------------------
 
@@ -153,7 +154,7 @@ func (c *caseRec) key() string {
 type stats struct {
 	blocks, dropped, persists, gcs, restarts       int64
 	checks, nodesDecoded, nodesWalked, rootsWalked int64
-	gets, finds                                    int64
+	gets, finds, seeks, proofs                     int64
 	activeChecked, inactiveChecked                 int64
 	sharedNodes, maxMult                           int64 // nodes seen with multiplicity >= 2
 	gcRemoved, gcNoop, prunedNoopGC                int64
@@ -182,6 +183,8 @@ func (s *stats) merge(o *stats) {
 	s.rootsWalked += o.rootsWalked
 	s.gets += o.gets
 	s.finds += o.finds
+	s.seeks += o.seeks
+	s.proofs += o.proofs
 	s.activeChecked += o.activeChecked
 	s.inactiveChecked += o.inactiveChecked
 	s.sharedNodes += o.sharedNodes
@@ -343,6 +346,11 @@ func (in *inst) commit(b batch) (kind, detail string) {
 	}
 	in.height = h
 	in.st.blocks++
+	if in.cfg.Applier == "batch" {
+		if got := in.mod.CurrentLocalStateRoot(); got != root || in.mod.CurrentLocalHeight() != h {
+			return "current-local-state-root-wrong", fmt.Sprintf("after block %d: module reports root %s at height %d, AddMPTBatch returned %s", h, got.StringBE(), in.mod.CurrentLocalHeight(), root.StringBE())
+		}
+	}
 
 	// model
 	prev := in.maps[h-1]
@@ -412,6 +420,9 @@ func (in *inst) persist() (kind, detail string) {
 			in.newModule()
 			if err := in.mod.Init(in.height); err != nil {
 				return "init-error-after-restart", err.Error()
+			}
+			if got := in.mod.CurrentLocalStateRoot(); got != in.repRoots[in.height] || in.mod.CurrentLocalHeight() != in.height {
+				return "current-local-state-root-wrong", fmt.Sprintf("after restart at %d: module reports root %s at height %d", in.height, got.StringBE(), in.mod.CurrentLocalHeight())
 			}
 		} else {
 			in.tr = mpt.NewTrie(mpt.NewHashNode(in.repRoots[in.height]), in.mode, in.dao)
@@ -626,6 +637,44 @@ func (in *inst) check() (kind, detail string) {
 				}
 			} else if ret && len(want) > 0 {
 				return "find-fails-on-retained-root", fmt.Sprintf("FindStates(root of height %d, prefix %x): %v", r, p, err)
+			}
+		}
+		// SeekStates has no error result: under a root whose start node is gone
+		// it yields nothing; what it yields must be the whole correct answer.
+		for _, p := range seekPrefixes {
+			st.seeks++
+			var res, want []storage.KeyValue
+			in.mod.SeekStates(root, p, func(k, v []byte) bool {
+				res = append(res, storage.KeyValue{Key: append(append([]byte{}, p...), k...), Value: bytes.Clone(v)})
+				return true
+			})
+			for _, k := range sortedKeys(in.maps[r]) {
+				if strings.HasPrefix(k, string(p)) {
+					want = append(want, storage.KeyValue{Key: []byte(k), Value: in.maps[r][k]})
+				}
+			}
+			if !sameKVs(res, want) && (ret || len(res) != 0) {
+				return "seek-returns-wrong-data-" + tag, fmt.Sprintf("SeekStates(root of height %d, prefix %x) = %s, that state had %s; latest %d, collected up to %d", r, p, kvString(res), kvString(want), h, in.gmax)
+			}
+		}
+		// Proofs: under the latest root, its predecessor, the oldest retained
+		// root and the newest collected one.
+		if r == h || r+1 == h || r == in.gmax || r+1 == in.gmax {
+			for _, kn := range keyOrder {
+				k := keys[kn]
+				st.proofs++
+				want, has := in.maps[r][k]
+				proof, err := in.mod.GetStateProof(root, []byte(k))
+				if err != nil {
+					if ret && has {
+						return "proof-fails-on-retained-root", fmt.Sprintf("GetStateProof(root of height %d, key %s): %v; latest %d, collected up to %d", r, kn, err, h, in.gmax)
+					}
+					continue
+				}
+				v, ok := mpt.VerifyProof(root, []byte(k), proof)
+				if !ok || !has || !bytes.Equal(v, want) {
+					return "proof-returns-wrong-data-" + tag, fmt.Sprintf("GetStateProof(root of height %d, key %s): %d nodes, verifies=%v value %x, that state had %x (present=%v)", r, kn, len(proof), ok, v, want, has)
+				}
 			}
 		}
 	}
@@ -1037,6 +1086,8 @@ func TestCheck(t *testing.T) {
 		"nodes_recreated_while_inactive":        int(total.reactivated),
 		"blocks_emptying_the_trie":              int(total.emptied),
 		"get_calls":                             int(total.gets),
+		"seek_calls":                            int(total.seeks),
+		"proof_calls":                           int(total.proofs),
 		"find_calls":                            int(total.finds),
 		"old_root_get_correct":                  int(total.oldOK),
 		"old_root_get_error":                    int(total.oldErr),
